@@ -2,6 +2,7 @@ import GormModel.Drv.Util
 import GormModel.Model.Bind
 import GormModel.Model.BindSpec
 import GormModel.Model.BindJoin
+import GormModel.Model.BindApi
 open Lean
 open Gorm.Bind
 namespace Gorm.Drv
@@ -123,6 +124,7 @@ open HC01 in
     ["bind.cond", dialect, isNum, query, [args]]       → "fallthrough" | {…}                  (BuildCondition string dispatch, then Build of each result)
     ["bind.join", dialect, pre, [refs], [on], [outer]]  → {…} of `render d (joinStmt d pre refs on outer)`   (relation join: private ON statement re-templated and re-bound)
     ["bind.dispatch", dialect, kind, sql, [args]]      → "fallthrough" | {…}   kind = raw | exec | rawjoin | select  (Expr vs NamedExpr decision of the entry point)
+    ["bind.table", dialect, name, [args]]              → {form: expr|qualified|plain|empty, render: {…}|null, binds: [vals], table: Statement.Table | null (outside the model)}   (`(*DB).Table(name, args...)`: Gorm.Bind.tableForm / tableDispatch / tableBinds)
     ["bind.wf", val]                                   → bool (decidable well-formedness, Model side) -/
 def handleC01 (op : String) (args : Array Json) : Option Json := do
   match op with
@@ -157,6 +159,19 @@ def handleC01 (op : String) (args : Array Json) : Option Json := do
       | some v => some (renderJ d v)
       | none => some (Json.str "fallthrough")
     | _ => none
+  | "bind.table" =>
+    let d ← parseDialect (arg args 1)
+    let name ← chars? (arg args 2)
+    let as ← (← jArr? (arg args 3)).toList.mapM parseVal
+    let form := match tableForm name as.length with
+      | .expr => "expr" | .qualified => "qualified" | .plain => "plain" | .empty => "empty"
+    let r := match tableDispatch name as with
+      | some v => renderJ d v
+      | none => Json.null
+    let tgt := match tableTarget name as.length [] with
+      | some t => cs t
+      | none => Json.null
+    some (Json.mkObj [("form", Json.str form), ("render", r), ("binds", Json.arr ((tableBinds d name as).map valJ).toArray), ("table", tgt)])
   | _ => none
 
 end Gorm.Drv
